@@ -220,6 +220,43 @@ func ruleEnv(c *Ctx) {
 		}
 		return out
 	}
+	// conditions common to every control variable (the validation gates at the
+	// top of Start) are the baseline; what an entry has beyond them must be
+	// exactly its feature condition - an additional condition on any other
+	// configuration field makes the variable depend on more than its feature
+	var baseline map[string]bool
+	for _, en := range entries {
+		if _, known := want[en.key]; known && len(want[en.key]) == 0 {
+			m := map[string]bool{}
+			for _, x := range en.guards {
+				m[x] = true
+			}
+			if baseline == nil {
+				baseline = m
+			} else {
+				for k := range baseline {
+					if !m[k] {
+						delete(baseline, k)
+					}
+				}
+			}
+		}
+	}
+	relevantAll := relevant
+	relevant = func(gs []string) []string {
+		out := relevantAll(gs)
+		have := map[string]bool{}
+		for _, x := range out {
+			have[x] = true
+		}
+		for _, x := range gs {
+			if !baseline[x] && !have[x] && (strings.HasPrefix(x, "ClientConfig.") || strings.HasPrefix(x, "UnixSocketConfig.")) {
+				out = append(out, x)
+			}
+		}
+		sort.Strings(out)
+		return out
+	}
 	got := map[string]bool{}
 	for _, en := range entries {
 		got[en.key] = true
